@@ -62,8 +62,9 @@ void compute_delj(double *dx, double *MInt, double *VInt,
     for(ii=0; ii < N-1; ii++){
         wj = 2 * MInt[ii] * dx[ii];
         epsj = exp(wj/VInt[ii]);
-        if(isinf(epsj))
-            /* exp overflowed: limit of the expression below as epsj -> inf */
+        if(wj/VInt[ii] > 500)
+            /* exp(wj/VInt) is huge (or overflows, as may its products below):
+             * limit of the expression below as epsj -> inf */
             delj[ii] = 1 - VInt[ii]/wj;
         else if((epsj != 1.0) && (wj != 0))
             delj[ii] = (-epsj*wj + epsj*VInt[ii] - VInt[ii])/(wj - epsj*wj);
